@@ -29,14 +29,15 @@ int ABTI_thread_handle_request_migrate(ABTI_global *g, ABTI_local *l, ABTI_threa
 void ABTI_thread_free(ABTI_global *g, ABTI_local *l, ABTI_thread *t) { n_free++; }
 void ABTD_futex_resume(ABTD_futex_single *f) { n_futex_resume++; }
 void ABTI_unit_unmap_thread(ABTI_global *g, ABT_unit u) {}
-void vf_after_jump(void) {} /* overridden per harness through the flag below */
+static void (*vf_after)(void); /* obligations of never-returning primitives are checked right after the jump */
+void vf_after_jump(void) { if (vf_after) vf_after(); }
 
 static void setup(void)
 {
     gp_ABTI_global = &glob; glob.p_primary_ythread = &primary;
     vf_self = &self; vf_ctx_saved = 0; vf_sw_calls = 0;
     vf_self_pushes = 0; vf_n_blocked_store = 0; vf_n_terminated_store = 0; vf_n_running_store = 0; vf_n_inc = 0; vf_n_dec = 0; vf_n_release = 0; vf_n_link = 0; vf_other_pushes = 0;
-    n_cancel = 0; n_migrate = 0; n_free = 0; n_futex_resume = 0; vf_clock = 1;
+    vf_after = NULL; n_cancel = 0; n_migrate = 0; n_free = 0; n_futex_resume = 0; vf_clock = 1;
     xs.p_thread = &self.thread;
     self.thread.type = ABTI_THREAD_TYPE_YIELDABLE | ABTI_THREAD_TYPE_NAMED; self.thread.state.val = ABT_THREAD_STATE_RUNNING;
     self.thread.unit = (ABT_unit)(((uintptr_t)&self.thread) | ABTI_UNIT_BUILTIN_POOL_BIT);
@@ -44,6 +45,8 @@ static void setup(void)
     parent.thread.type = ABTI_THREAD_TYPE_YIELDABLE; parent.thread.p_last_xstream = &xs; parent.ctx.ctx.dummy = (void *)1; parent.thread.state.val = ABT_THREAD_STATE_RUNNING;
     target.thread.type = ABTI_THREAD_TYPE_YIELDABLE; target.thread.p_pool = &poolT; target.ctx.p_stacktop = (void *)&target; /* some stack */
     { int started; target.ctx.ctx.dummy = started ? (void *)1 : NULL; }
+    /* every ULT owns a stack (lazy stacks are compiled out in this configuration) */
+    self.ctx.p_stacktop = (void *)&self; parent.ctx.p_stacktop = (void *)&parent; joiner.ctx.p_stacktop = (void *)&joiner; primary.ctx.p_stacktop = (void *)&primary;
     poolA.is_builtin = ABT_TRUE; poolB.is_builtin = ABT_TRUE; poolT.is_builtin = ABT_TRUE; poolJ.is_builtin = ABT_TRUE;
     { uint32_t rq; VF_ASSUME((rq & ~(ABTI_THREAD_REQ_CANCEL | ABTI_THREAD_REQ_MIGRATE | ABTI_THREAD_REQ_JOIN)) == 0); self.thread.request.val = rq; }
     { int m; mig_ok = m ? 1 : 0; }
@@ -219,4 +222,94 @@ void h_suspend_resume_balance(void)
     ABTI_ythread_resume_and_push((ABTI_local *)&xs2, &self);
     VF_ASSERT(poolA.num_blocked.val == a0 && poolB.num_blocked.val == b0, "after suspend + resume every pool's blocked count is what it was (zero when nobody is blocked, never negative)");
     VF_REACH("suspend/resume balance"); VF_COVER(n_migrate == 1 && mig_ok, "with a migration served in between");
+}
+
+/* ---------------- exit family (never return) ---------------- */
+/* the joiner hand-shake of the exiting ULT is taken by contract here (verified
+ * in unit sw_atomic_get_joiner): NULL or the ULT that joins self */
+static ABTI_ythread *vf_joiner_choice;
+static inline ABTI_ythread *ABTI_ythread_atomic_get_joiner(ABTI_ythread *p_ythread)
+__CPROVER_assigns() __CPROVER_ensures(__CPROVER_pointer_equals(__CPROVER_return_value, vf_joiner_choice));
+
+static int a0_, j0_, t0_;
+#define EXIT_TERMINATED                                                                                        \
+    VF_ASSERT(vf_n_terminated_store == 1 && self.thread.state.val == ABT_THREAD_STATE_TERMINATED && vf_t_save < vf_t_terminated, "caller TERMINATED exactly once (release store), after it has left its stack"); \
+    VF_ASSERT(vf_self_pushes == 0 && vf_n_blocked_store == 0, "a terminated ULT is neither pushed nor blocked");
+static void h_after_exit(void)
+{
+    VF_ASSERT(vf_sw_calls == 1 && vf_sw_cb == ABTI_ythread_callback_exit && vf_sw_cb_arg == &self, "one jump with the exit callback on the caller");
+    EXIT_TERMINATED
+    if (vf_joiner_choice == NULL) {
+        VF_ASSERT(vf_sw_new == &parent.ctx.ctx && xs.p_thread == &parent.thread && vf_other_pushes == 0 && n_futex_resume == 0 && vf_n_dec == 0, "no joiner: back to the parent (scheduler), nobody woken");
+    } else if (joiner.thread.type == ABTI_THREAD_TYPE_EXT) {
+        VF_ASSERT(n_futex_resume == 1 && vf_other_pushes == 0 && vf_sw_new == &parent.ctx.ctx, "external-thread joiner: woken through its futex exactly once; then back to the parent");
+    } else if (joiner.thread.p_last_xstream == &xs && !(self.thread.type & ABTI_THREAD_TYPE_MAIN_SCHED)) {
+        VF_ASSERT(vf_sw_new == &joiner.ctx.ctx && xs.p_thread == &joiner.thread && joiner.thread.state.val == ABT_THREAD_STATE_RUNNING, "joiner on the same stream: direct jump, joiner RUNNING");
+        VF_ASSERT(vf_n_dec == 1 && vf_dec_pool == &poolJ && poolJ.num_blocked.val == j0_ - 1 && vf_other_pushes == 0 && n_futex_resume == 0, "... its pool's blocked count -1 exactly once, not pushed as well");
+    } else {
+        VF_ASSERT(vf_other_pushes == 1 && vf_other_pushed == &joiner.thread && vf_n_dec == 1 && vf_dec_pool == &poolJ && vf_sw_new == &parent.ctx.ctx, "joiner elsewhere (or exiting main scheduler): resumed by push exactly once; then back to the parent");
+        VF_ASSERT(vf_t_other_push < vf_t_save, "the joiner is woken BEFORE the exiting ULT leaves its stack only by push (it cannot run this ULT's stack); termination follows after the jump");
+    }
+    VF_REACH("exit checked");
+    VF_COVER(vf_joiner_choice && joiner.thread.type != ABTI_THREAD_TYPE_EXT && joiner.thread.p_last_xstream == &xs, "direct hand-over"); VF_COVER(vf_joiner_choice && joiner.thread.type == ABTI_THREAD_TYPE_EXT, "external joiner"); VF_COVER(!vf_joiner_choice, "no joiner");
+}
+static void setup_joiner(void)
+{
+    int has; vf_joiner_choice = has ? &joiner : NULL;
+    int ext; joiner.thread.type = ext ? ABTI_THREAD_TYPE_EXT : ABTI_THREAD_TYPE_YIELDABLE;
+    joiner.thread.p_arg = &jfutex; joiner.thread.p_pool = &poolJ; joiner.thread.state.val = ABT_THREAD_STATE_BLOCKED; joiner.ctx.ctx.dummy = (void *)1;
+    int samexs; joiner.thread.p_last_xstream = samexs ? &xs : &xs2;
+    j0_ = poolJ.num_blocked.val;
+    int ms; if (ms) self.thread.type |= ABTI_THREAD_TYPE_MAIN_SCHED;
+}
+void h_exit(void)
+{
+    setup(); setup_joiner(); vf_after = h_after_exit;
+    ABTI_ythread_exit(&xs, &self);
+    VF_ASSERT(0, "ABTI_ythread_exit never returns");
+}
+static void h_after_exit_to(void)
+{
+    VF_ASSERT(vf_sw_calls == 1 && vf_sw_cb == ABTI_ythread_callback_exit && vf_sw_cb_arg == &self && vf_sw_new == &target.ctx.ctx, "one jump to the named target with the exit callback");
+    EXIT_TERMINATED
+    VF_ASSERT(target.thread.state.val == ABT_THREAD_STATE_RUNNING && xs.p_thread == &target.thread && target.thread.p_parent == &parent.thread, "the named target runs next on this stream");
+    if (vf_joiner_choice == NULL) VF_ASSERT(vf_other_pushes == 0 && n_futex_resume == 0, "no joiner: nobody woken");
+    else if (joiner.thread.type == ABTI_THREAD_TYPE_EXT) VF_ASSERT(n_futex_resume == 1 && vf_other_pushes == 0, "external joiner woken once");
+    else VF_ASSERT(vf_other_pushes == 1 && vf_other_pushed == &joiner.thread && vf_n_dec == 1 && vf_dec_pool == &poolJ, "ULT joiner resumed by push exactly once (never entered directly: the caller wants the target)");
+    VF_REACH("exit_to checked");
+}
+void h_exit_to(void)
+{
+    setup(); setup_joiner(); vf_after = h_after_exit_to; target.thread.state.val = ABT_THREAD_STATE_READY;
+    /* resume_joiner uses the real ABTI_ythread_resume_joiner on top of the contract above */
+    ABTI_ythread_exit_to(&xs, &self, &target);
+    VF_ASSERT(0, "never returns");
+}
+static void h_after_resume_exit_to(void)
+{
+    VF_ASSERT(vf_sw_calls == 1 && vf_sw_cb == ABTI_ythread_callback_resume_exit_to && vf_sw_new == &target.ctx.ctx, "one jump to the blocked target with the resume-exit callback");
+    EXIT_TERMINATED
+    VF_ASSERT(target.thread.state.val == ABT_THREAD_STATE_RUNNING && xs.p_thread == &target.thread, "the resumed target runs next on this stream");
+    VF_ASSERT(poolT.num_blocked.val == t0_ - 1, "the target's pool: blocked count -1 exactly once");
+    VF_REACH("resume_exit_to checked");
+}
+void h_resume_exit_to(void)
+{
+    setup(); setup_joiner(); vf_after = h_after_resume_exit_to; target.thread.state.val = ABT_THREAD_STATE_BLOCKED; target.ctx.ctx.dummy = (void *)1; t0_ = poolT.num_blocked.val;
+    if (vf_joiner_choice && joiner.thread.type != ABTI_THREAD_TYPE_EXT) joiner.thread.p_pool = &poolJ;
+    ABTI_ythread_resume_exit_to(&xs, &self, &target);
+    VF_ASSERT(0, "never returns");
+}
+static void h_after_exit_to_primary(void)
+{
+    VF_ASSERT(vf_sw_calls == 1 && vf_sw_cb == ABTI_ythread_callback_exit && vf_sw_cb_arg == &self && vf_sw_new == &primary.ctx.ctx, "one jump to the primary ULT with the exit callback");
+    EXIT_TERMINATED
+    VF_ASSERT(primary.thread.state.val == ABT_THREAD_STATE_RUNNING && xs.p_thread == &primary.thread && primary.thread.p_last_xstream == &xs, "the primary ULT runs next on this stream");
+    VF_REACH("exit_to_primary checked");
+}
+void h_exit_to_primary(void)
+{
+    setup(); vf_after = h_after_exit_to_primary; primary.thread.type = ABTI_THREAD_TYPE_YIELDABLE; primary.ctx.ctx.dummy = (void *)1; primary.thread.state.val = ABT_THREAD_STATE_BLOCKED;
+    ABTI_ythread_exit_to_primary(&glob, &xs, &self);
+    VF_ASSERT(0, "never returns");
 }
